@@ -29,7 +29,6 @@ type gzSpec struct {
 	Count  int    `json:"count"`
 	Name   int    `json:"name"`
 	Pay    int    `json:"pay"`
-	Big    bool   `json:"big,omitempty"`
 }
 
 type gzMember struct {
@@ -153,9 +152,6 @@ func gzBuild(spec any) *genFile {
 	pays := payloads
 	for i := 0; i < sp.Count; i++ {
 		p := pays[(sp.Pay+i)%len(pays)]
-		if sp.Big && (p.Name == "const70000" || p.Name == "noise70000") {
-			p = bigPayloads[(sp.Pay+i)%2]
-		}
 		m := &gzMember{Flags: sp.Flags, Mtime: 1600000000 + uint32(i), Payload: p.Data}
 		switch sp.Level {
 		case 9:
@@ -198,9 +194,6 @@ func gzBuild(spec any) *genFile {
 	f.Desc = fmt.Sprintf("writer=%s level=%d flags=0x%02x members=%d", sp.Writer, sp.Level, sp.Flags, sp.Count)
 	if sp.Count > 0 {
 		f.Desc += fmt.Sprintf(" name=%s payload=%s", gzNameLabels[sp.Name], pays[sp.Pay].Name)
-		if sp.Big {
-			f.Desc += " big"
-		}
 	}
 	f.Nontriv = sp.Count > 0 && (sp.Flags != 0 || len(exp.Members[0].Payload) > 0 || sp.Count > 1)
 	for i, m := range exp.Members {
@@ -232,17 +225,6 @@ func gzEnum(r *core.Run, emit func(any)) {
 						for p := range payloads {
 							emit(&gzSpec{Writer: w, Level: level, Flags: flags, Count: count, Name: n, Pay: p})
 						}
-					}
-				}
-			}
-		}
-	}
-	if r.Thorough() {
-		for _, level := range []int{0, 1, 9} {
-			for _, flags := range []int{0, fNAME | fCOMMENT} {
-				for count := 1; count <= 2; count++ {
-					for p := 3; p <= 4; p++ {
-						emit(&gzSpec{Writer: "std", Level: level, Flags: flags, Count: count, Pay: p, Big: true})
 					}
 				}
 			}
@@ -416,6 +398,7 @@ func gzTruthful(f *genFile, mut []byte, reg region, o map[string]any) (bool, str
 func init() {
 	register(&section{
 		name: "gzip", fqfmt: "gzip", prog: gzProg,
+		fprog:    `def fobs: {err: errs, validity: validity, unc: {bytes: (.uncompressed|tb)}, members: [.members[]? | {isize: (.isize|act)}]};`,
 		newSpec:  func() any { return &gzSpec{} },
 		enum:     gzEnum,
 		build:    gzBuild,
